@@ -174,7 +174,8 @@ func checkC10(sc *Scenario, res *RunResult, t *Truth) []Violation {
 			if firstKill != nil && !userStop(firstKill.Seq+1) && (failedBefore(firstKill.Seq) == 0 || fatalAt < 0 || firstKill.Seq < fatalAt) {
 				vs = append(vs, Violation{"C10", "stopped-before-failure-threshold", fmt.Sprintf("threshold=%d", threshold), fmt.Sprintf("%s was signalled at seq %d after fewer than %d consecutive probe failures of this launch and without a stop request", rep, firstKill.Seq, threshold), firstKill.Seq})
 			}
-			if fatalAt >= 0 && (L.ExitSeq < 0 || L.ExitSeq > fatalAt) && !userStop(fatalAt) {
+			// (a command that ends by itself at the very instant of the fatal probe result needs no signal)
+			if fatalAt >= 0 && (L.ExitSeq < 0 || (L.ExitSeq > fatalAt && L.ExitT > t.Events[fatalAt].T)) && !userStop(fatalAt) {
 				if firstKill == nil {
 					if t.EndT-t.Events[fatalAt].T > 3*time.Second {
 						vs = append(vs, Violation{"C10", "not-stopped-after-failure-threshold", fmt.Sprintf("threshold=%d", threshold), fmt.Sprintf("%s: %d consecutive probe failures (the last at seq %d) but the process was never signalled", rep, threshold, fatalAt), fatalAt})
